@@ -17,6 +17,7 @@ type SingleCfg struct {
 	Wild     bool // forward-only value regime: zeros, ties, extreme magnitudes
 	Distinct bool // prefer pairwise different dimension sizes (reductions)
 	Bits     bool // arbitrary payloads: NaN, +-Inf, -0, denormals (value-parametric operations)
+	Mags     bool // finite values of very different magnitudes (1e-250..1e120), products stay finite
 }
 
 // DrawShapeN draws a shape of rank minRank..maxRank with dims 1..maxDim and <= maxElems elements.
@@ -139,6 +140,12 @@ func DrawValsMode(t *rapid.T, n, leaf int, mode string) []float64 {
 					v[i] = -v[i]
 				}
 			}
+		case "mags":
+			m := rapid.SampledFrom([]float64{1e-250, 1e-120, 1e-30, 1, 1, 1e30, 1e120}).Draw(t, "mag")
+			v[i] = m * (float64(rapid.IntRange(1, 15).Draw(t, "digit"))/8 + j)
+			if rapid.Bool().Draw(t, "neg") {
+				v[i] = -v[i]
+			}
 		case "bits":
 			switch rapid.IntRange(0, 2).Draw(t, "kind") {
 			case 0:
@@ -165,13 +172,16 @@ func (s *single) leaf(shape []int, mode string) int {
 	if s.cfg.Bits {
 		mode = "bits"
 	}
+	if s.cfg.Mags && (mode == "std" || mode == "nonzero") {
+		mode = "mags"
+	}
 	if s.cfg.Wild {
 		if mode == "std" || mode == "zeros" || rapid.Bool().Draw(s.t, "wildanyway") {
 			mode = "wild"
 		}
 	}
 	v := DrawValsMode(s.t, ref.Prod(shape), len(s.p.Leaves), mode)
-	s.p.Leaves = append(s.p.Leaves, Leaf{Shape: ref.Cp(shape), Vals: v})
+	s.p.Leaves = append(s.p.Leaves, Leaf{Shape: ref.Cp(shape), Vals: v, Via: DrawVia(s.t)})
 	return len(s.p.Leaves) - 1
 }
 
@@ -197,7 +207,7 @@ func GenSingle(t *rapid.T, op string, cfg SingleCfg) Program {
 			n.F = rapid.SampledFrom(powExpNonZero).Draw(t, "p")
 		default:
 			n.In = []int{s.leaf(shape(0), "zeros")}
-			n.F = rapid.SampledFrom([]float64{0, 1, 2}).Draw(t, "p")
+			n.F = rapid.SampledFrom([]float64{0, 1, 2, 3, 4}).Draw(t, "p")
 		}
 	case op == "log":
 		n.In = []int{s.leaf(shape(0), "pos")}
@@ -244,6 +254,10 @@ func GenSingle(t *rapid.T, op string, cfg SingleCfg) Program {
 		m := rapid.IntRange(1, 4).Draw(t, "m")
 		k := rapid.IntRange(1, 4).Draw(t, "k")
 		p := rapid.IntRange(1, 4).Draw(t, "p")
+		if maxBatch >= 2 && rapid.IntRange(0, 9).Draw(t, "bigbatch") == 0 {
+			batch = DrawShapeN(t, 2, maxBatch, 8, 160, true)
+			m, k, p = rapid.IntRange(1, 2).Draw(t, "m2"), rapid.IntRange(1, 2).Draw(t, "k2"), rapid.IntRange(1, 2).Draw(t, "p2")
+		}
 		ba, bb := batch, batch
 		if cfg.Expand {
 			ba, bb = DrawBroadcastPair(t, batch)
@@ -339,3 +353,12 @@ func Ties(t *rapid.T, p *Program) {
 
 // NearKink reports whether a value is within eps of 0.
 func NearKink(v, eps float64) bool { return math.Abs(v) < eps }
+
+// DrawVia draws the provenance of a leaf: mostly a plain TensorOf, otherwise one of the
+// derivations of lib.NewVia.
+func DrawVia(t *rapid.T) int {
+	if rapid.IntRange(0, 2).Draw(t, "viaplain") > 0 {
+		return 0
+	}
+	return rapid.IntRange(1, 6).Draw(t, "via")
+}
